@@ -52,6 +52,7 @@ theorem doAct_qview (s : State) (l : Nat) (lp : Loop) (act : Act) (rest : List A
         · cases h; rfl
         · cases h
   | endCall k => simp only [doAct, Option.some.injEq] at h; subst h; rfl
+  | release key => simp only [doAct, Option.some.injEq] at h; subst h; rfl
 
 /-- (Q) every accepted message is in exactly one stage, and the stages are in arrival order -/
 structure InvQ (s : State) : Prop where
@@ -355,6 +356,7 @@ theorem doAct_invC (s : State) (l : Nat) (lp : Loop) (act : Act) (rest : List Ac
         · cases h; exact keep s _ rfl rfl rfl rfl rfl rfl
         · cases h
   | endCall k => simp only [doAct, Option.some.injEq] at h; subst h; exact keep _ _ rfl rfl rfl rfl rfl rfl
+  | release key => simp only [doAct, Option.some.injEq] at h; subst h; exact keep _ _ rfl rfl rfl rfl rfl rfl
 
 theorem invC_step (s : State) (ev : Event) (inv : InvC s) : InvC (step s ev) := by
   cases ev with
@@ -513,6 +515,9 @@ theorem doAct_cases (s : State) (l : Nat) (lp : Loop) (act : Act) (rest : List A
   | endCall k =>
     simp only [doAct, Option.some.injEq] at h; subst h
     exact ⟨rfl, rfl, rfl, Or.inl ⟨_, rfl, rfl, rfl, Or.inl rfl⟩⟩
+  | release key =>
+    simp only [doAct, Option.some.injEq] at h; subst h
+    exact ⟨rfl, rfl, rfl, Or.inl ⟨_, rfl, rfl, rfl, Or.inl rfl⟩⟩
 
 /-- messages waiting to be taken, oldest first -/
 def waiting (s : State) : List Msg := s.queue ++ s.hand.toList
@@ -537,6 +542,7 @@ theorem waitsPreceded_tail (act : Act) (rest : List Act) (h : waitsPreceded (act
   | send k => exact ⟨by simpa [waitsPreceded] using h, (by intro c b e; cases e), (by intro k n e; cases e)⟩
   | wait c b => simp [waitsPreceded] at h
   | endCall k => exact ⟨by simpa [waitsPreceded] using h, (by intro c b e; cases e), (by intro k n e; cases e)⟩
+  | release key => exact ⟨by simpa [waitsPreceded] using h, (by intro c b e; cases e), (by intro k n e; cases e)⟩
 
 theorem invW_step (s : State) (ev : Event) (ic : InvC s) (inv : InvW s) : InvW (step s ev) := by
   obtain ⟨clp, hclp, hcd⟩ := ic.cur
@@ -834,6 +840,7 @@ theorem current_can_step (s : State) (iw : InvW s) (lp : Loop) (h : s.loops s.cu
   | send k => rfl
   | wait c b => simp [waitsPreceded] at hw
   | endCall k => rfl
+  | release key => rfl
 
 /-- one step of whatever loop is current -/
 def advance (s : State) : State :=
@@ -1133,6 +1140,7 @@ theorem doAct_curPres (s : State) (l : Nat) (lp : Loop) (act : Act) (rest : List
             · cases h; rfl
             · cases h
       | endCall k => simp only [doAct, Option.some.injEq] at h; subst h; rfl
+      | release key => simp only [doAct, Option.some.injEq] at h; subst h; rfl
     refine ⟨?_, hst, hfin⟩
     rcases hc with ⟨lp', hloops, hpc', hcur', _⟩ | ⟨hloops, _⟩
     · constructor
